@@ -613,6 +613,16 @@ func (ex *Exec) specCall(x ECall, env *SpecEnv) Val {
 			t = SlArr(t)
 		}
 		return Scalar{Ge(t, env.topOld), boolT}
+	case "allocated": // the object (or backing array) exists in the current state: distinct from anything allocated later
+		need(1)
+		t := ex.scalar(argv(0))
+		if t.Sort == SSlice {
+			t = SlArr(t)
+		}
+		if t.Sort == SIface {
+			t = IfVal(t)
+		}
+		return Scalar{Lt(t, env.st.top), boolT}
 	case "disjoint": // slices over different backing arrays
 		need(2)
 		a, b := ex.scalar(argv(0)), ex.scalar(argv(1))
